@@ -145,6 +145,9 @@ def step(st, op):
             if b.session_key != [None, K1, K2][op[1]]:
                 o.viol("key|given-key-not-used", "given session key not used")
             st.origin[slot] = "K%d" % op[1]
+        dirty = shapes.default_objects_dirty()
+        if dirty:
+            o.viol("isolation|default-objects", dirty)
         st.keys.append(b.session_key)
         st.objs[slot], st.texts[slot], st.raws[slot], st.cur = b, None, None, slot
         st.kept[slot] = set()
